@@ -11,7 +11,9 @@
     outside the block.
   * Values that the C code returns as `unsigned` are reduced modulo 2^32 (`u32`); pointer
     arithmetic is on 64-bit pointers and is not reduced.
-  * `rtosc_narguments` is modelled after fix `fixes/C01-narguments.patch`.
+  * `rtosc_narguments` is modelled after fix `fixes/C01-narguments.patch`; `arg_start`,
+    `arg_off` and the string case of `arg_size` after `fixes/C07-argstart-empty-typestring.patch`
+    and `fixes/C07-empty-string-size.patch` (sizes are measured from the first byte).
 -/
 import RtoscModel.Osc.Encode
 namespace Rtosc.Osc
@@ -34,6 +36,10 @@ def skipToNul (m : Bytes) (p : Nat) : Option Nat :=
 /-- `while(!*++p);` — from offset `p` to the first non-NUL at an offset `> p` -/
 def skipNuls (m : Bytes) (p : Nat) : Option Nat :=
   (nonNulIdx (m.drop (p + 1))).map (· + (p + 1))
+
+/-- `while(*p) ++p;` — from offset `p` to the first NUL at an offset `≥ p` -/
+def scanToNul (m : Bytes) (p : Nat) : Option Nat :=
+  (nulIdx (m.drop p)).map (· + p)
 
 /-- `rtosc_argument_string` (rtosc.c:18): offset of the first type tag. -/
 def argString (m : Bytes) : Option Nat :=
@@ -71,10 +77,11 @@ def typeAt (m : Bytes) (n : Nat) : Option UInt8 :=
   | none => none
   | some a => typeLoop (m.drop a) n
 
-/-- the pointer computed by `arg_start` / the first lines of `arg_off`:
-    `arg_pos = args; while(*++arg_pos); arg_pos += 4-(arg_pos-aligned_ptr)%4;` -/
+/-- the pointer computed by `arg_start` / the first lines of `arg_off`
+    (after fix C07-argstart-empty-typestring):
+    `arg_pos = args; while(*arg_pos) ++arg_pos; arg_pos += 4-(arg_pos-aligned_ptr)%4;` -/
 def argBase (m : Bytes) (args : Nat) : Option Nat :=
-  match skipToNul m args with
+  match scanToNul m args with
   | none => none
   | some p => some (p + (4 - (p - (args - 1)) % 4))
 
@@ -110,7 +117,7 @@ def argSize (m : Bytes) (p : Nat) (t : UInt8) : Option Nat :=
   else if t = 104 ∨ t = 116 ∨ t = 100 then some 8
   else if t = 109 ∨ t = 114 ∨ t = 102 ∨ t = 99 ∨ t = 105 then some 4
   else if t = 83 ∨ t = 115 then
-    match skipToNul m p with                       -- while(*++arg_pos);
+    match scanToNul m p with                       -- while(*arg_pos) ++arg_pos;
     | none => none
     | some q => some (u32 (q - p + (4 - (q - p) % 4)))
   else if t = 98 then
